@@ -347,6 +347,16 @@ func e4OracleC05(r *e4Result) string {
 		if !e4Emitted(e) {
 			continue
 		}
+		if e.Pkt.Type == rtConnect {
+			// what the application asked for in Connect, on every connection
+			want := refPacket{Type: rtConnect, ProtoName: "MQTT", ProtoLevel: 4, ClientID: "verif-client", CleanSession: r.Case.Cfg.CleanSession, KeepAlive: r.Case.Cfg.KeepAliveS}
+			got := *e.Pkt
+			if got.ProtoName != want.ProtoName || got.ProtoLevel != want.ProtoLevel || got.ClientID != want.ClientID || got.CleanSession != want.CleanSession ||
+				got.KeepAlive != want.KeepAlive || got.HasWill || got.HasUser || got.HasPass {
+				return fmt.Sprintf("CONNECT #%d on c%d %v differs from what the application asked for (client id %q, clean session %v, keep-alive %d, no will, no credentials)", e.Seq, e.Conn, got, want.ClientID, want.CleanSession, want.KeepAlive)
+			}
+			continue
+		}
 		tag := vTagOf(*e.Pkt)
 		q, ok := req[tag]
 		if tag == "" || !ok {
